@@ -416,6 +416,18 @@ def block_mode(chk, prog_by_cfg):
                     sw = core.bool_test_of_call(c, cb)
                     if sw and c.edge_dominates(sw[0], sw[1], db):
                         ok = True
+                if not ok:
+                    # the verdict travels through a helper's return value / a guard clause (`if !admit(..) { continue }`): on the product with
+                    # the boolean store, no dispatch is reachable once the condition has answered `false`
+                    from .. import absreach
+                    def refused_cannot_dispatch(cb):
+                        ct = c.term(cb)
+                        dl_ = ct["dest"]["l"] if ct.get("dest") and not ct["dest"]["p"] else None
+                        if dl_ is None or ct.get("target") is None or dl_ not in absreach.Store(c, pg).flags:
+                            return False
+                        # (up to the next connection's verdict: the loop comes round to the condition call again)
+                        return db not in absreach.feasible_from(c, [ct["target"]], pg, init={("flag", dl_): False}, stop=set(conds))
+                    ok = all(refused_cannot_dispatch(cb) for cb in conds if db in c.reachable(c.succs(cb))) and any(db in c.reachable(c.succs(cb)) for cb in conds)
                 if not ok and not any(core.must_pass(c, [cb], [db]) is None and False for cb in conds):
                     # a dispatch not reachable from the condition at all (e.g. the HTTPS redirect helper) is not a connection dispatch
                     reach = any(db in c.reachable(c.succs(cb)) for cb in conds)
